@@ -81,6 +81,7 @@ def parseOp? (tok : String) : Option (Op GRat) :=
   | ["bigW"] => some .readBigWView
   | ["nv"] => some .readNoiseVar
   | ["ln"] => some .readLastNoise
+  | ["stack", x, xe] => do some (.stackData (← parseMats? x) (← parseMats? xe))
   | ["corruptc", x, "none"] => do some (.corruptCat (← parseMat? x) none)
   | ["corruptc", x, n] => do some (.corruptCat (← parseMat? x) (some (← parseMat? n)))
   | ["corrupt", x, xe, "none"] => do some (.corrupt (← parseMats? x) (← parseMats? xe) none)
